@@ -21,7 +21,9 @@ def opLoad2 (args impl : List String) : Verdict :=
       let rm := load k true data
       match impl with
       | rcF :: rcM :: rest =>
-        if rcF ≠ toString (R.rc rf) then .fail s!"descriptor route rc: model {R.rc rf} impl {rcF}"
+        if rcF.contains '!' then
+          .fail s!"the descriptor route does not leave the caller's descriptor usable (a second load of the same bytes through it must behave like the first): {rcF}"
+        else if rcF ≠ toString (R.rc rf) then .fail s!"descriptor route rc: model {R.rc rf} impl {rcF}"
         else if rcM ≠ toString (R.rc rm) then .fail s!"memory route rc: model {R.rc rm} impl {rcM}"
         else
           -- C06: both fail or both succeed
